@@ -80,7 +80,7 @@ Decode(s, isBytes, acc) ==
                ELSE IF k = 2 THEN (c - 48) * 8 + (s[3] - 48)
                ELSE (c - 48) * 64 + (s[3] - 48) * 8 + (s[4] - 48)
       IN IF n > 255 \/ (~isBytes /\ n > 127) THEN Fail
-         ELSE Decode(SubSeq(s, 2 + k + 1, Len(s)), isBytes, Append(acc, n))
+         ELSE Decode(SubSeq(s, 2 + k, Len(s)), isBytes, Append(acc, n))
     ELSE IF c = 120 THEN                                                    \* \xHH
       IF Len(s) < 4 \/ ~IsHex(s[3]) \/ ~IsHex(s[4]) THEN Fail
       ELSE LET n == HexVal(s[3]) * 16 + HexVal(s[4]) IN
